@@ -22,7 +22,7 @@ contract(PP + '.create_symbol', props=['C09'], params={'value': 'str?', 'line_id
          modifies=['self._symbols[*]'], allocates=True)
 
 W = 'words_of(SYMBOL_PATTERN, {})'
-contract(PP + '.resolve_symbols', props=['C09', 'C14'], params={'resolved_symbols': 'set[str]'},
+contract(PP + '.resolve_symbols', props=['C09', 'C14', 'C08'], params={'resolved_symbols': 'set[str]'},
          may_raise={'SystemExit': 'True'},       # a symbol whose replacement leads back to itself is rejected
          ensures=[  # repeated until no defined symbol remains: no whole word of the result is a defined symbol
              'forall(lambda w: implies(w in ' + W.format('result') + ', not (w in self._symbols)), types={"w": "str"})'],
